@@ -18,7 +18,7 @@ yields are not followed (a consumer that stops polling performs no further I/O).
 """
 from collections import deque
 
-from mirlite import ty_str, callee, op_place, bool_transfer, bool_switch_target
+from mirlite import ty_str, callee, op_place, bool_transfer, bool_switch_target, prune_known, switch_relevant_locals
 from flow import Tracer
 from codec_rules import agg_tree
 
@@ -177,6 +177,7 @@ def monitor(eg, input_ty, output_enum, final_variants, all_variants, data_reques
     b = eg.b
     findings = []
     seen = {}
+    relevant = switch_relevant_locals(b)
     start = (0, ("S0", False, None), frozenset())
     dq = deque([start])
     seen[start] = None
@@ -359,7 +360,7 @@ def monitor(eg, input_ty, output_enum, final_variants, all_variants, data_reques
         n_states += 1
         bb, ms, kn = state
         # bool temporaries (`let last = matches!(packet, ..); ..; if last { break }`) are followed path-sensitively
-        known = bool_transfer(b, bb, kn)
+        known = prune_known(bool_transfer(b, bb, kn), relevant)
         only = bool_switch_target(b, bb, known)
         kn2 = frozenset(known.items())
         ev = eg.event.get(bb)
